@@ -27,6 +27,7 @@ type c07Case struct {
 	HasExpect  bool   `json:"hasExpect"`
 	Expect     string `json:"expect"`   // value of the FULL program (ToString), when known
 	Capacity   bool   `json:"capacity"` // a built-in capacity is exceeded: an error is required
+	Cap        int64  `json:"cap"`      // the program returns the length of an array built in one operation: at most this, or an error
 }
 
 type c07Obs struct {
@@ -40,6 +41,7 @@ type c07Obs struct {
 	Err        bool   `json:"err"`
 	ErrText    string `json:"errtext"`
 	Ret        string `json:"ret"`
+	RetInt     int64  `json:"retInt"`
 	Rest       string `json:"rest"`
 	Ops        int64  `json:"ops"`
 	Dispatches int64  `json:"dispatches"`
@@ -107,6 +109,17 @@ func c07Cases(thorough bool) []c07Case {
 		"a = [0]*500; b = a + a; 1", "a = [0]*256; a = a + a; a = a + a; 1", "[[0]*500]*500", "a=[0]*500; [a,a,a,a,a,a,a,a]*60", "d = {}; i = 0; while 1 { d[i] = i; i = i + 1 }",
 		"a = [1]; i=0; while i < 600 { a.push(i); i = i + 1 }; a.len()", "a = [0]*500; i = 0; while 1 { a = [a, a, a]; i = i + 1 }"} {
 		add("grow-container", p, false, "", false)
+	}
+	// container lengths: repetition, concatenation and ranges build at most 512 elements in one operation, whatever the operands
+	for _, p := range []string{"([1,2]*256).len()", "([1,2]*257).len()", "([1,2]*300).len()", "([1,2,3,4]*512).len()", "(171*[1,2,3]).len()", "(300*[1,2]).len()", "([0]*512).len()", "([0]*513).len()",
+		"([1,2,3,4,5,6,7]*74).len()", "a=[0]*300; (a+a).len()", "a=[0]*256; b=a+a; (b+[1]).len()", "a=[0]*512; (a+[]).len()", "a=[0]*511; (a+[1,2]).len()", "[1..512].len()", "[1..513].len()", "[0..512].len()",
+		"[513..1].len()", "[-256..256].len()", "a=[1,2]; i=0; while i<12 { a=a*2; i=i+1 }; a.len()", "a=[1,2,3]; i=0; while i<12 { a=2*a; i=i+1 }; a.len()", "a=[1,2]; i=0; while i<12 { a=a+a; i=i+1 }; a.len()",
+		"x=[1,2,3]; n=200; (x*n).len()", "func rp(v, n) { v * n }; rp([1,2], 400).len()", "`{([1,2]*400).len()}`", "&cv = [1,2,3]*250; cv.len()"} {
+		before := len(cs)
+		add("container-cap", p, false, "", false)
+		for i := before; i < len(cs); i++ {
+			cs[i].Cap = 512
+		}
 	}
 	// capacities: long sums around the code-buffer size, nesting around the block/template limits, operands around the stack size
 	for _, k := range []int{100, 2000, 4090, 4094, 4095, 4096, 4097, 4100, 5000, 8192, 9000, 20000} {
@@ -226,6 +239,9 @@ func c07RunOne(c c07Case) c07Obs {
 			return
 		}
 		o.Ret = vm.Ret.ToString()
+		if n, ok := vm.Ret.ReadInt(); ok {
+			o.RetInt = int64(n)
+		}
 		if len(o.Ret) > 200 {
 			o.Ret = o.Ret[:200]
 		}
